@@ -69,6 +69,7 @@ type FuncContract struct {
 	Lemmas         []Clause // assert-style lemmas proved at function entry under requires
 	AtCalls        []AtCall // assertions attached to call sites of the body
 	NoNilCheck     bool     // nil-dereference obligations are assumed instead of proved (reported)
+	DynNoEffect    bool     // calls through function values are assumed not to touch modelled memory (reported)
 	Witness        []string
 	File           string
 	Line           int
@@ -388,6 +389,11 @@ func (cs *ContractSet) LoadContractFile(path, pkgPath string) error {
 			cur.CheckAsserts = true
 		case "nonilcheck":
 			cur.NoNilCheck = true
+		case "dyncalls":
+			if rest != "noeffect" {
+				return fmt.Errorf("%s:%d: only `dyncalls noeffect` is supported", path, ln)
+			}
+			cur.DynNoEffect = true
 		case "witness":
 			cur.Witness = append(cur.Witness, rest)
 		default:
